@@ -1749,7 +1749,7 @@ sf_read_raw		(SNDFILE *sndfile, void *ptr, sf_count_t bytes)
 
 	count = psf_fread (ptr, 1, bytes, psf) ;
 
-	if (psf->read_current + count / blockwidth <= psf->sf.frames)
+	if (count <= (psf->sf.frames - psf->read_current) * blockwidth)
 		psf->read_current += count / blockwidth ;
 	else
 	{	count = (psf->sf.frames - psf->read_current) * blockwidth ;
@@ -1807,7 +1807,7 @@ sf_read_short	(SNDFILE *sndfile, short *ptr, sf_count_t len)
 
 	count = psf->read_short (psf, ptr, len) ;
 
-	if (psf->read_current + count / psf->sf.channels <= psf->sf.frames)
+	if (count <= (psf->sf.frames - psf->read_current) * psf->sf.channels)
 		psf->read_current += count / psf->sf.channels ;
 	else
 	{	count = (psf->sf.frames - psf->read_current) * psf->sf.channels ;
@@ -1857,7 +1857,7 @@ sf_readf_short		(SNDFILE *sndfile, short *ptr, sf_count_t frames)
 
 	count = psf->read_short (psf, ptr, frames * psf->sf.channels) ;
 
-	if (psf->read_current + count / psf->sf.channels <= psf->sf.frames)
+	if (count <= (psf->sf.frames - psf->read_current) * psf->sf.channels)
 		psf->read_current += count / psf->sf.channels ;
 	else
 	{	count = (psf->sf.frames - psf->read_current) * psf->sf.channels ;
@@ -1915,7 +1915,7 @@ sf_read_int		(SNDFILE *sndfile, int *ptr, sf_count_t len)
 
 	count = psf->read_int (psf, ptr, len) ;
 
-	if (psf->read_current + count / psf->sf.channels <= psf->sf.frames)
+	if (count <= (psf->sf.frames - psf->read_current) * psf->sf.channels)
 		psf->read_current += count / psf->sf.channels ;
 	else
 	{	count = (psf->sf.frames - psf->read_current) * psf->sf.channels ;
@@ -1965,7 +1965,7 @@ sf_readf_int	(SNDFILE *sndfile, int *ptr, sf_count_t frames)
 
 	count = psf->read_int (psf, ptr, frames * psf->sf.channels) ;
 
-	if (psf->read_current + count / psf->sf.channels <= psf->sf.frames)
+	if (count <= (psf->sf.frames - psf->read_current) * psf->sf.channels)
 		psf->read_current += count / psf->sf.channels ;
 	else
 	{	count = (psf->sf.frames - psf->read_current) * psf->sf.channels ;
@@ -2023,7 +2023,7 @@ sf_read_float	(SNDFILE *sndfile, float *ptr, sf_count_t len)
 
 	count = psf->read_float (psf, ptr, len) ;
 
-	if (psf->read_current + count / psf->sf.channels <= psf->sf.frames)
+	if (count <= (psf->sf.frames - psf->read_current) * psf->sf.channels)
 		psf->read_current += count / psf->sf.channels ;
 	else
 	{	count = (psf->sf.frames - psf->read_current) * psf->sf.channels ;
@@ -2073,7 +2073,7 @@ sf_readf_float	(SNDFILE *sndfile, float *ptr, sf_count_t frames)
 
 	count = psf->read_float (psf, ptr, frames * psf->sf.channels) ;
 
-	if (psf->read_current + count / psf->sf.channels <= psf->sf.frames)
+	if (count <= (psf->sf.frames - psf->read_current) * psf->sf.channels)
 		psf->read_current += count / psf->sf.channels ;
 	else
 	{	count = (psf->sf.frames - psf->read_current) * psf->sf.channels ;
@@ -2131,7 +2131,7 @@ sf_read_double	(SNDFILE *sndfile, double *ptr, sf_count_t len)
 
 	count = psf->read_double (psf, ptr, len) ;
 
-	if (psf->read_current + count / psf->sf.channels <= psf->sf.frames)
+	if (count <= (psf->sf.frames - psf->read_current) * psf->sf.channels)
 		psf->read_current += count / psf->sf.channels ;
 	else
 	{	count = (psf->sf.frames - psf->read_current) * psf->sf.channels ;
@@ -2181,7 +2181,7 @@ sf_readf_double	(SNDFILE *sndfile, double *ptr, sf_count_t frames)
 
 	count = psf->read_double (psf, ptr, frames * psf->sf.channels) ;
 
-	if (psf->read_current + count / psf->sf.channels <= psf->sf.frames)
+	if (count <= (psf->sf.frames - psf->read_current) * psf->sf.channels)
 		psf->read_current += count / psf->sf.channels ;
 	else
 	{	count = (psf->sf.frames - psf->read_current) * psf->sf.channels ;
